@@ -138,7 +138,7 @@ def run_case(ctx, case, rec, d):
         req = min(theta_seen) * ((dmin * u.kpc).to(u.Unit(case.get('dunit', 'kpc'))).to(u.pc).value)
         dk = (dmin * u.kpc).to(u.Unit(case.get('dunit', 'kpc'))).to(u.kpc).value
         req = min(req, min(theta_seen) * dk * 1000.0, (min(theta_seen) * dk) * 1000.0, min(theta_seen) * (dk * 1000.0))     # any natural way of forming arcsec x pc
-        if case['range'] == 'onsmallest' and 'too small' in str(e) and req < ap[0] and abs(req - ap[0]) <= 4 * np.spacing(ap[0]):
+        if case['range'] == 'onsmallest' and req < ap[0] and abs(req - ap[0]) <= 4 * np.spacing(ap[0]):          # (whatever the wording of the refusal)
             rec.notes['conformant-refusal-within-4ulp-of-smallest-aperture'] += 1
             rec.cls('request-on-smallest-aperture')
             rec.outcome('refused-on-smallest')
